@@ -12,7 +12,7 @@ CONSTANTS
   MaxRequery = 0
   FixCommitState = TRUE
   SeqSMP = FALSE
-  FixSMPReset = FALSE
-INVARIANTS TypeOK InOrderNoDup AllDelivered SlotsSuffice SlotBound SMPSound RunOutcomeKnown
+  FixSMPReset = TRUE
+INVARIANTS TypeOK InOrderNoDup AllDelivered SlotsSuffice SlotBound SMPSound RunOutcome
 PROPERTIES BothEncrypted SMPFinishes
 CHECK_DEADLOCK FALSE
